@@ -122,8 +122,9 @@ func isHex(s string) bool {
 	return true
 }
 
-// DecodeBIP276 accepts exactly: non-empty prefix, ':', 4 hex digits, an even,
-// non-zero number of data hex digits, 8 checksum digits matching the text.
+// DecodeBIP276 accepts exactly: non-empty prefix, ':', 4 hex digits, an even
+// number (possibly zero: the empty payload) of data hex digits, 8 checksum
+// digits matching the text.
 func DecodeBIP276(s string) (*BIP276, error) {
 	// everything behind the separating colon is hex digits, so the separator is
 	// the LAST colon of the text; a prefix may itself contain colons
@@ -132,7 +133,7 @@ func DecodeBIP276(s string) (*BIP276, error) {
 		return nil, errors.New("no prefix")
 	}
 	rest := s[i+1:]
-	if len(rest) < 4+2+8 || !isHex(rest) || len(rest)%2 != 0 {
+	if len(rest) < 4+8 || !isHex(rest) || len(rest)%2 != 0 {
 		return nil, errors.New("layout")
 	}
 	body, ck := s[:len(s)-8], s[len(s)-8:]
